@@ -34,7 +34,7 @@ def case_strategy(draw):
         # a schedule after an action history (C04 generator)
         c = draw(c04.case_strategy())
         return {"kind": "after-actions", "text": c04.deck_text(c, False), "apps": c["apps"]}
-    blocks = draw(MG.gen_schedule())
+    blocks = draw(MG.gen_schedule(kinds=list(MG.GENERATORS) + list(getattr(MG, "EXTRA_GENERATORS", {}))))
     unit = draw(st.sampled_from(["METRIC", "FIELD", "LAB"]))
     static = draw(MG.gen_static())
     return {"kind": "generated", "text": MG.render(blocks, unit, static=static)}
@@ -131,7 +131,7 @@ class C11(Check):
         labels = ["kind:" + case["kind"]]
         feats = 0
         for kw, lab in (("RPTSOL\n", "RPTSOL"), ("FIPVE", "RPTSOL-FIPVE"), ("RPTRST\n", "RPTRST"), ("UDQ\n", "UDQ"), ("ACTIONX\n", "ACTIONX"), ("WLIST\n", "WLIST"), ("GCONSALE\n", "GCONSALE"), ("BRANPROP\n", "network"),
-                        ("WTEST\n", "WTEST"), ("GUIDERAT\n", "GUIDERAT"), ("WECON\n", "WECON"), ("GCONSUMP\n", "GCONSUMP"), ("TUNING\n", "TUNING")):
+                        ("WTEST\n", "WTEST"), ("WELSEGS\n", "MSW"), ("NODEPROP\n", "NODEPROP"), ("GUIDERAT\n", "GUIDERAT"), ("WECON\n", "WECON"), ("GCONSUMP\n", "GCONSUMP"), ("TUNING\n", "TUNING")):
             if kw in t:
                 labels.append("has:" + lab)
                 feats += 1
